@@ -334,6 +334,18 @@ Definition tokenize_at (named : bytes -> option N) (k : conf) (l : loc) (s : str
   tokenize named (cfg_at k l) s.
 
 (* ------------------------------------------------------------------ *)
+(* The configurations that can exist: conf.ValidQuotes.setValue accepts only strings over VALID_QUOTE_CHARS,
+   conf.ValidBrackets (OnlySomeStrings) only the strings of VALID_BRACKETS (regenerated tables).  The character
+   machine above is a faithful picture of shlex only there: shlex names its word state 'a' and tests
+   `self.state in self.quotes`, so a quote set containing the letter a would send word state into the quote
+   branch (the model does not mirror that collision; lemma quote_chars_ok shows it cannot be configured). *)
+Definition quotes_valid (q : str) : bool := forallb (fun c => mem c T13.VALID_QUOTE_CHARS) q.
+Definition brackets_valid (b : str) : bool := existsb (seq_eqb b) T13.VALID_BRACKETS.
+Definition cfg_valid (c : cfg) : bool :=
+  quotes_valid (c_quotes c)
+  && match c_brackets c with None => true | Some (l, r) => brackets_valid [l; r] end.
+
+(* ------------------------------------------------------------------ *)
 (* str.encode('unicode_escape') and utils.str.dqrepr *)
 Definition hexdig (v : N) : N := if v <? 10 then 48 + v else 87 + v.
 Fixpoint hexn (k : nat) (n : N) : list N :=
@@ -398,7 +410,8 @@ Definition vRexn {A} (f : A -> value) (r : res A) : value := vR f r.
    op 6: dq_dom s     op 7: minimal_quote s     op 8: lexer only (brackets pipe quotes s)
    op 9: callbacks.tokenize(s, channel, network) with per-channel/network values:
          payload (nested brackets-store pipe-store quotes-store (net_given net_connected chan_given chan_valid) names s),
-         a store is (base chan? net? netchan?) with x? = () | (x) *)
+         a store is (base chan? net? netchan?) with x? = () | (x)
+   op 10: (brackets-string quotes-string) -> (brackets_valid quotes_valid): what conf accepts *)
 Definition gStore {V} (f : value -> V) (v : value) : store V :=
   Store (f (nth_v 0 v)) (gO f (nth_v 1 v)) (gO f (nth_v 2 v)) (gO f (nth_v 3 v)).
 
@@ -426,5 +439,6 @@ Definition run (v : value) : value :=
       let lv := nth_v 4 p in
       let l := Loc (gB (nth_v 0 lv)) (gB (nth_v 1 lv)) (gB (nth_v 2 lv)) (gB (nth_v 3 lv)) in
       vR vTrees (tokenize_at (named_of (nth_v 5 p)) k l (gS (nth_v 6 p)))
+  | 10 => L [vB (brackets_valid (gS (nth_v 0 p))); vB (quotes_valid (gS (nth_v 1 p)))]
   | _ => L []
   end.
